@@ -137,6 +137,7 @@ package sql
 //@   ensures[tl] PL(p) && p.cur >= old(p.cur)
 //@   decreases pmeasure(p) * 32 + 19
 //@   ensures[kind; C18] err == nil ==> typeof(result0) == typ(CreateDatabase) || typeof(result0) == typ(CreateTable)
+//@   ensures[types; C18] err == nil && typeof(result0) == typ(CreateTable) ==> colTypesOK(result0.(CreateTable).Elements)
 
 //@ func (p *Parser) CreateDatabase() (CreateDatabase, error)
 //@   props C09
@@ -151,6 +152,7 @@ package sql
 //@   modifies p.cur
 //@   ensures[tl] PL(p) && p.cur >= old(p.cur)
 //@   decreases pmeasure(p) * 32 + 18
+//@   ensures[types; C18] err == nil ==> colTypesOK(result0.Elements)
 
 //@ func (p *Parser) TableElements() ([]TableElement, error)
 //@   props C09
@@ -161,6 +163,8 @@ package sql
 //@   loop 1 invariant PL(p) && p.cur >= old(p.cur)
 //@   loop 1 invariant ret == nil || fresh(ret)
 //@   loop 1 decreases pmeasure(p)
+//@   ensures[types; C18] colTypesOK(result0)
+//@   loop 1 invariant colTypesOK(ret)
 
 //@ func (p *Parser) Select() (Select, error)
 //@   props C09
@@ -455,4 +459,8 @@ package sql
 //@        (typeof(s) == typ(Select) ==> selWF(s.(Select))) &&
 //@        (typeof(s) == typ(InsertStatement) ==> typeof(s.(InsertStatement).InsertColumnsAndSource.QueryExpression) == typ(TableValueConstructor)) &&
 //@        (typeof(s) == typ(UpdateStatementSearched) ==> (s.(UpdateStatementSearched).Where == nil || typeof(s.(UpdateStatementSearched).Where) == typ(WhereClause))) &&
-//@        (typeof(s) == typ(DeleteStatementSearched) ==> (s.(DeleteStatementSearched).WhereClause == nil || typeof(s.(DeleteStatementSearched).WhereClause) == typ(WhereClause))) }
+//@        (typeof(s) == typ(DeleteStatementSearched) ==> (s.(DeleteStatementSearched).WhereClause == nil || typeof(s.(DeleteStatementSearched).WhereClause) == typ(WhereClause))) &&
+//@        (typeof(s) == typ(CreateTable) ==> colTypesOK(s.(CreateTable).Elements)) }
+//@ spec pred colTypesOK(es []TableElement) { forall i int :: 0 <= i && i < len(es) ==> colTypeOK(es[i].ColumnDefinition.DataType) }
+
+//@ spec pred colTypeOK(t any) { typeof(t) == typ(NumericType) || typeof(t) == typ(BigIntType) || typeof(t) == typ(CharacterStringType) || typeof(t) == typ(BooleanType) }
